@@ -1,4 +1,5 @@
 """C07 — Only legal Hamiltonian terms with positive weight are ever stored."""
+from checks import big_scale
 from checks import extra_audits
 from checks import api_cov
 LEAN_TARGETS = ["QmcProps.C07", "drv_c06", "drv_c07"]
@@ -74,4 +75,7 @@ def main(ck):
         # oracle column FAILs on the unchanged library; known_findings.json turns it into KNOWN-FINDING
         ck.correspond("swap-guard-witness", "drv_c07", ck.harness("c06", ["swapwit"]))
     api_cov.run(ck, "c07")   # otherwise unexercised public API, model-free oracles of this property
+    big_scale.run(ck, "manybonds")   # large-scale regime (>65536 bonds/ops/slots, release semantics): model-free oracles of the property statements
+    if ck.tier == "thorough":
+        big_scale.run(ck, "hubstar")
     return ck.finish(RULE)
